@@ -15,14 +15,29 @@ func init() { Checks["C12"] = CheckC12 }
 // decoder is one Decode function paired with its reader, over a pool of initial targets.
 // run returns the outcome class ("stored", "null", "error") or a violation.
 type decoder struct {
-	name  string
-	ninit int
-	run   func(in []byte, init int) (string, bool, error)
+	name     string
+	ninit    int
+	nderived int // initial targets derived from the input itself: init = c12Derived + k
+	run      func(in []byte, init int) (string, bool, error)
 }
 
-func mkDecoder[T any](name string, inits []T, same func(a, b T) bool, read func([]byte) (T, int, error), dec func([]byte, *T) (int, error)) decoder {
-	return decoder{name: name, ninit: len(inits), run: func(in []byte, init int) (string, bool, error) {
+// c12Derived is the first index of the input-derived initial targets.
+const c12Derived = 1000
+
+func mkDecoder[T any](name string, inits []T, same func(a, b T) bool, read func([]byte) (T, int, error), dec func([]byte, *T) (int, error), derive ...func(in []byte, k int) (T, bool)) decoder {
+	nd := 0
+	if len(derive) > 0 {
+		nd = 6
+	}
+	return decoder{name: name, ninit: len(inits), nderived: nd, run: func(in []byte, init int) (string, bool, error) {
 		v0 := inits[init%len(inits)]
+		if init >= c12Derived && len(derive) > 0 {
+			d, ok := derive[0](in, init-c12Derived)
+			if !ok {
+				return "no-derived-target", false, nil
+			}
+			v0 = d
+		}
 		var zero T
 		nz := !same(v0, zero)
 		rv, rp, rerr := read(in)
@@ -79,8 +94,39 @@ func init() {
 		si := si
 		c12Decoders = append(c12Decoders, mkDecoder(fmt.Sprintf("DecodeString/scratch%d", si), inits, eq[string],
 			func(in []byte) (string, int, error) { return rjson.ReadString(in, nil) },
-			func(in []byte, v *string) (int, error) { return rjson.DecodeString(in, v, scratchConfigs[si]()) }))
+			func(in []byte, v *string) (int, error) { return rjson.DecodeString(in, v, scratchConfigs[si]()) },
+			c12StringTargets))
 	}
+}
+
+// c12StringTargets: initial targets that already look like the input. k = 0..3: the raw bytes
+// between the opening quote and the (k+1)-th later quote; 4: the whole token with its quotes;
+// 5: what ReadString returns.
+func c12StringTargets(in []byte, k int) (string, bool) {
+	i := ref.SkipWS(in, 0)
+	if i >= len(in) || in[i] != '"' {
+		return "", false
+	}
+	switch k {
+	case 4:
+		if e := ref.String(in, i); e > 0 {
+			return string(in[i:e]), true
+		}
+		return "", false
+	case 5:
+		s, _, err := rjson.ReadString(in, nil)
+		return cloneString(s), err == nil
+	}
+	seen := 0
+	for j := i + 1; j < len(in); j++ {
+		if in[j] == '"' {
+			if seen == k {
+				return string(in[i+1 : j]), true
+			}
+			seen++
+		}
+	}
+	return "", false
 }
 
 func cloneString(s string) string { return string(append([]byte(nil), s...)) }
